@@ -9,6 +9,8 @@ CONSTANTS
   WaitLeader = TRUE
   QueueSize = 10
   SpecialCids = {}
+  Journal = FALSE
+  DumpFile = FALSE
   Raisers = {"x1"}
   InitConnected = TRUE
   Membership = FALSE
